@@ -26,6 +26,7 @@ var c16Plan = []planEntry{
 	{spaces.B, 5, 6},
 	{spaces.XNulRef, 6, 7},
 	{spaces.XPhrase, 4, 5},
+	{spaces.XRefTail, 5, 6},
 	{spaces.XInfo, 4, 5},
 	{spaces.XRefHead, 5, 6},
 }
